@@ -243,12 +243,18 @@ impl<'a> DpMaster<'a> {
     /// Canonical rendering of the internal cycle state for the external verification harness.
     ///
     /// Only used for state fingerprints (deduplication); no oracle depends on it.
-    pub fn verif_fingerprint(&self, now: crate::time::Instant) -> std::string::String {
+    pub fn verif_fingerprint(
+        &self,
+        now: crate::time::Instant,
+        gc_interval: crate::time::Duration,
+    ) -> std::string::String {
         std::format!(
             "{:?}|{:?}|{:?}|{:?}",
             self.state.operating_state,
             self.state.cycle_state,
-            self.state.last_global_control.map(|t| now - t),
+            self.state
+                .last_global_control
+                .map(|t| now - t >= gc_interval),
             self.state.last_events,
         )
     }
